@@ -6,8 +6,11 @@
 package verifhook
 
 import (
+	"crypto/rand"
+	"encoding/hex"
 	"errors"
 	"fmt"
+	"io"
 	"os"
 	"runtime"
 	"strings"
@@ -41,6 +44,33 @@ func ErrClass(err, incorrect error) int {
 		return 2
 	}
 	return 3
+}
+
+// randTape passes the system CSPRNG through and appends what each Read delivered to a file.
+type randTape struct {
+	inner io.Reader
+	f     *os.File
+	pid   int
+}
+
+func (t *randTape) Read(p []byte) (int, error) {
+	n, err := t.inner.Read(p)
+	t.f.WriteString(fmt.Sprintf(`{"ev":"rand.read","pid":%d,"asked":%d,"hex":%q}`+"\n", t.pid, len(p), hex.EncodeToString(p[:n])))
+	return n, err
+}
+
+// When VERIF_RANDTAPE names a file, every read of crypto/rand.Reader in this process is recorded there
+// (the draws of a command-line run, which no in-process tape can reach).
+func init() {
+	path := os.Getenv("VERIF_RANDTAPE")
+	if path == "" {
+		return
+	}
+	f, err := os.OpenFile(path, os.O_APPEND|os.O_CREATE|os.O_WRONLY, 0o600)
+	if err != nil {
+		return
+	}
+	rand.Reader = &randTape{inner: rand.Reader, f: f, pid: os.Getpid()}
 }
 
 // When VERIF_TRACE names a file, every event is appended to it as one JSON line with the
